@@ -16,6 +16,7 @@ import (
 	"fmt"
 	"os"
 	"sync"
+	"time"
 )
 
 type input struct {
@@ -182,10 +183,14 @@ func IteI64(c bool, a, b int64) int64 {
 // Concretize forces a value to be concrete (a decision over its feasible values under gosym).
 func Concretize(x int) int { return x }
 
-// scheduling (no-ops natively)
-func Yield()                                  {}
-func Quiesce()                                {}
+// scheduling: under gosym these are decision points; natively they give the other
+// goroutines time to run to their next blocking operation or hook point.
+func Yield()   { time.Sleep(20 * time.Millisecond) }
+func Quiesce() { time.Sleep(50 * time.Millisecond) }
 func ExploreSchedules(on bool, preemptBound int) {}
+
+// ScheduleMode: 0 deterministic, 1 decisions at Yield/hook points only, 2 at every sync operation.
+func ScheduleMode(mode int, preemptBound int) {}
 func Note(s string)                           {}
 
 // Abstract replaces later calls of the named function ("pkg/path.Func") by an
